@@ -148,7 +148,10 @@ Section Search.
     end.
 
   Definition search_invalid_gen (t : block) : verdict :=
-    match search_block t {| inv := []; wr := [] |} [] with ROk _ => Accept | RRej v => v end.
+    match search_block t {| inv := []; wr := [] |} [] with
+    | ROk _ => Accept
+    | RRej v => match v with Accept => Crash | _ => v end   (* a rejection is never [Accept] *)
+    end.
 End Search.
 
 Definition search_invalid := search_invalid_gen false.
@@ -361,3 +364,12 @@ Definition boolcast_witness : block :=
   (BCons (SExpr true [OTemp 1] (OTemp 2))
   (BCons (SExpr true [OTemp 2] (OTemp 3))
   (BCons (SOther [OTemp 3]) BNil))).
+
+(** spec helper for the cleanup correspondence: every temporary read in an access list is also written in it *)
+Fixpoint writes_of (l : list acc) : list positive :=
+  match l with
+  | [] => []
+  | AW (OTemp r) :: q => r :: writes_of q
+  | _ :: q => writes_of q
+  end.
+Definition covered (l : list acc) : bool := forallb (fun r => pmem r (writes_of l)) (reads_of l).
